@@ -31,6 +31,6 @@ func TestCheck(t *testing.T) {
 		Assumptions: []string{"under AllVersions the property does not settle whether older versions of a key whose newest visible version is a tombstone are 'live': such keys are left out of the comparison",
 			"SinceTs and Next on an exhausted iterator are not part of the stated property and are not generated"},
 	}
-	pbt.Add(s, &pbt.Spec[txm.Case]{Name: "txn", Gen: gen, Run: txm.Run, Quick: 800, Thorough: 40000, Shards: 16})
+	pbt.Add(s, &pbt.Spec[txm.Case]{Name: "txn", Gen: gen, Run: txm.Run, Quick: 560, Thorough: 40000, Shards: 16})
 	s.Main(t)
 }
